@@ -14,7 +14,8 @@ NO_RERUN = True
 DDMIN_FIELDS = ('programs',)
 RULE = ('one run = a seeded corpus of 4-10 programs compiled by 2-4 fresh interpreters, each started with its own seeded '
         'PYTHONHASHSEED, fake clock (epoch, rate) and fake pid, each following its own seeded history (permutation, subsample, '
-        'repeats, interleaved debug-option variants); a case = one (program text, options) target; non-trivial = the target '
+        'repeats, interleaved debug-option variants incl. a debug stream that fails with an I/O error at its n-th write; the corpus also holds look-alike '
+        'twins and variants that make the compiler raise in the middle of a clause); a case = one (program text, options) target; non-trivial = the target '
         'was compiled at least twice under different hash seeds or at different history positions and its text has a clause '
         'with >= 2 distinct variables, an anonymous variable or an if-then-else/negation; distinct = hash of (text, options)')
 ASSUMPTIONS = [
@@ -25,19 +26,27 @@ ASSUMPTIONS = [
 COMPONENTS = {'real': ['yldprolog.compiler pipeline incl. ANTLR runtime, one fresh CPython process per (hash seed, clock, history)'],
               'stub': ['wall clock in the workers (time/datetime patched to a seeded fake)', 'debug output stream (in-memory)'],
               'oracle': ['byte equality of outcome and return value between interpreters and history positions']}
-REQUIRED_PROBES = ('interpreters', 'targets_compared_across_hashseeds', 'targets_compared_across_positions')
+REQUIRED_PROBES = ('outcome_EXC:OSError', 'outcome_EXC:CompilerError', 'interpreters', 'targets_compared_across_hashseeds', 'targets_compared_across_positions')
 
-OPTIONS = [['', False, False], ['src/a.pl', False, False], ['', False, True], ['b.pl', True, True], ['', True, False], ['lib/b.pl', False, False]]
+OPTIONS = [['', False, False], ['src/a.pl', False, False], ['', False, True], ['b.pl', True, True], ['', True, False], ['lib/b.pl', False, False],
+           ['', False, True, 3], ['', True, True, 40]]      # 4th element: the debug stream raises OSError at its n-th write (I/O fault)
 
 
 def gen(seed, tier):
     rng = random.Random(seed)
-    programs = [progs.gen_compile_program(rng) for _ in range(rng.randrange(4, 11))]
+    programs = [progs.gen_compile_program(rng) for _ in range(rng.randrange(4, 9))]
+    # look-alike twins and failing variants of corpus programs: what one compilation leaves behind in the
+    # process (memo tables, half-updated scopes) must not show in the next
+    for text in list(programs):
+        r = rng.random()
+        extra = progs.unquoted_twin(text) if r < 0.5 else (progs.failing_variant(rng, text) if r < 0.85 else None)
+        if extra and extra not in programs:
+            programs.append(extra)
     workers = []
     for _ in range(rng.randrange(2, 5)):
         hist = []
         for _ in range(rng.randrange(3, 16)):
-            hist.append([rng.randrange(len(programs)), 0 if rng.random() < 0.7 else rng.randrange(len(OPTIONS))])
+            hist.append([rng.randrange(len(programs)), 0 if rng.random() < 0.65 else rng.randrange(len(OPTIONS))])
         # every worker also compiles program 0 and 1 with plain options so that overlaps are guaranteed
         for k in (0, 1):
             hist.insert(rng.randrange(len(hist) + 1), [k, 0])
